@@ -38,6 +38,7 @@ type CLIOpt struct {
 	Env       []string // full environment (nil => minimal default)
 	Dir       string
 	Timeout   time.Duration
+	Wrap      []string // command prefix (e.g. /usr/bin/time -f %M): the gojq binary and Args are appended
 }
 
 var defaultEnv = []string{"PATH=/usr/bin:/bin", "HOME=/nonexistent", "LANG=C", "NO_COLOR="}
@@ -51,6 +52,9 @@ func CLI(o CLIOpt) CLIResult {
 	ctx, cancel := context.WithTimeout(context.Background(), to)
 	defer cancel()
 	cmd := exec.CommandContext(ctx, GojqBin(), o.Args...)
+	if len(o.Wrap) > 0 {
+		cmd = exec.CommandContext(ctx, o.Wrap[0], append(append(append([]string{}, o.Wrap[1:]...), GojqBin()), o.Args...)...)
+	}
 	cmd.Env = o.Env
 	if cmd.Env == nil {
 		cmd.Env = defaultEnv[:3]
